@@ -20,6 +20,7 @@ mod c14;
 mod c15;
 mod c16;
 mod c17;
+mod c18;
 mod gen_builders;
 mod util;
 
@@ -44,6 +45,7 @@ fn run_property(id: &str, tier: &str) -> Option<Run> {
         "C15" => c15::run(tier),
         "C16" => c16::run(tier),
         "C17" => c17::run(tier),
+        "C18" => c18::run(tier),
         _ => return None,
     })
 }
@@ -84,6 +86,7 @@ fn main() {
             "C15" => c15::replay(&v["replay"]),
             "C16" => c16::replay(&v["replay"]),
             "C17" => c17::replay(&v["replay"]),
+            "C18" => c18::replay(&v["replay"]),
             _ => Err(format!("no replay for property {prop}")),
         };
         match res {
